@@ -455,8 +455,11 @@ class BPWorld(World):
         if kn["config"] == "A":
             c = r.random()
             if fl == "D2BP" and c < 0.25:
-                return {"k": "gauge", "how": pick(r, ["gauge_d2bp", "compress_d2bp", "gauge_all_bp", "gauge_symmetric"]),
+                return {"k": "gauge", "how": pick(r, ["gauge_d2bp", "compress_d2bp", "gauge_all_bp", "gauge_symmetric",
+                                                      "gauge_insert"]),
                         "opts": self._draw_opts(r)}
+            if fl == "L2BP" and c < 0.25:
+                return {"k": "gauge", "how": pick(r, ["compress_l2bp", "compress_l2bp_lazy"]), "opts": self._draw_opts(r)}
             return {"k": "lib", "entry": pick(r, ["class", "class", "func"]),
                     "opts": self._draw_opts(r), "strip": r.random() < 0.4,
                     "plan": self._draw_plan(S)}
@@ -605,6 +608,22 @@ class BPWorld(World):
             )
         if ad is not None:
             self._check_marginals(ad, tol * 10)
+            for mk in ad.mk_list:
+                ok, dd = same_direction(ad.get(mk), ad.exact(mk), tol * 100)
+                if not ok:
+                    raise Violation(f"C14/message:{fl}",
+                                    f"after run() reported convergence message {mk} differs from the exact message by {dd:.3g}; opts={o}")
+            self.stats.probe("messages_checked_after_run", len(ad.mk_list))
+            if self.knobs["data_kind"] == "pos" and fl in ("D1BP", "D2BP") and not damping:
+                # the loop / generalised-loop expansions reduce to the BP value
+                # on a tree (no loops): region counting must not change it
+                for name in (("contract_gloop_expand", "contract_with_loops") if fl == "D1BP" else ("contract_gloop_expand",)):
+                    ad2 = Adapter(self.net, fl, o, self.seam)
+                    self._must(lambda: ad2.bp.run(tol=tol_run, max_iterations=maxit, tol_rolling_diff=0.0))
+                    v2 = self._must(lambda: getattr(ad2.bp, name)())
+                    if not abs(complex(v2) - z) <= tol * 10 * abs(z):
+                        raise Violation(f"C14/value:{fl}:{name}", f"{name}() = {v2} vs exact {z} on a tree")
+                    self.stats.probe("loop_expansion_checks")
             if not bool(ad.bp.converged) and not damping:
                 raise Violation(f"C14/not_converged:{fl}",
                                 f"run() did not report convergence on a tree after {maxit} iterations")
@@ -702,12 +721,12 @@ class BPWorld(World):
             raise Skip()
         o = op["opts"]
         qbp = self._qbp()
-        ad0 = Adapter(self.net, "D2BP", {"order_seed": o.get("order_seed")})
+        how = op["how"]
+        ad0 = Adapter(self.net, "L2BP" if how.startswith("compress_l2bp") else "D2BP", {"order_seed": o.get("order_seed")})
         tn = ad0.tn
         outer = sorted(tn.outer_inds())
         before = tn.to_dense(outer) if outer else tn.contract(all)
         maxbond = max(self.net.sizes.values())
-        how = op["how"]
         common = dict(max_iterations=200, tol=1e-12, damping=o["damping"], update=o["update"],
                       local_convergence=o["lc"])
         if how == "gauge_d2bp":
@@ -716,6 +735,19 @@ class BPWorld(World):
             f = lambda: qbp.compress_d2bp(tn, max_bond=maxbond, cutoff=0.0, **common)
         elif how == "gauge_all_bp":
             f = lambda: tn.gauge_all_belief_propagation(**common)
+        elif how.startswith("compress_l2bp"):
+            f = lambda: qbp.compress_l2bp(tn, max_bond=maxbond ** 3, cutoff=0.0, site_tags=ad0.site_tags,
+                                          max_iterations=200, tol=1e-12, damping=o["damping"], update=o["update"],
+                                          local_convergence=o["lc"], lazy=how.endswith("lazy"))
+        elif how == "gauge_insert":
+            def f():
+                bp = qbp.D2BP(tn, update=o["update"], damping=o["damping"], local_convergence=o["lc"])
+                bp.run(tol=1e-12, max_iterations=200, tol_rolling_diff=0.0)
+                t2 = tn.copy()
+                # insert the gauges on the outer bonds and take them out again
+                with bp.gauge_temp(t2):
+                    pass
+                return t2
         else:
             def f():
                 bp = qbp.D2BP(tn, update=o["update"], damping=o["damping"], local_convergence=o["lc"])
